@@ -193,6 +193,9 @@ func (sc *Scheduler) Schedule(ctx context.Context, g *ExecutionGraph, done chan 
 							node.setStatus(NodeStatusCancel)
 							sc.setLastError(execErr)
 						case sc.isCanceled():
+							// the run is being stopped and Signal has not reached this node yet:
+							// the step did not complete
+							node.setStatus(NodeStatusCancel)
 							sc.setLastError(execErr)
 						case node.data.Step.RetryPolicy != nil && node.data.Step.RetryPolicy.Limit > node.getRetryCount():
 							// retry
